@@ -250,15 +250,17 @@ func c06RoundTrip(c *rtCtx, r *Result, src, formatted string, prog, prog2 *parse
 			return
 		}
 		a, err := ParseSX(ans)
-		if err != nil || a.Kind != "lst" || len(a.L) != 11 {
+		if err != nil || a.Kind != "lst" || len(a.L) != 12 {
 			r.Violate(Violation{Kind: "correspondence", Key: "roundtrip-model-answer", Detail: truncKey(ans, 300), Input: src})
 			return
 		}
 		status, parsed, t1, t2 := a.L[0].S, a.L[1].String(), a.L[2].String(), a.L[3].String()
 		nerrs, nrest := a.L[4].S, a.L[5].S
 		frag, precOK, tight, lexOK := a.L[6].S == "true", a.L[7].S == "true", a.L[8].S == "true", a.L[9].S == "true"
+		covered := a.L[10].S == "true" // the syntactic part of item_ok (list-level theorems) / of the top-level theorems
 		in := map[string]any{"program": src, "expression": e1.String(), "list_item": es[i].wss}
-		r.Dist(fmt.Sprintf("roundtrip:%s:frag=%v", map[bool]string{true: "list-item", false: "expression"}[es[i].wss], frag))
+		r.Dist(fmt.Sprintf("roundtrip:%s:%s", map[bool]string{true: "list-item", false: "expression"}[es[i].wss],
+			map[bool]string{true: "covered-by-theorem", false: "model-run-only"}[covered]))
 		switch {
 		case !precOK:
 			r.Violate(Violation{Kind: "correspondence", Key: "roundtrip-hypothesis-prec-ok-false",
@@ -275,7 +277,7 @@ func c06RoundTrip(c *rtCtx, r *Result, src, formatted string, prog, prog2 *parse
 				Impl: map[string]any{"source_tree": t1, "reparsed_tree": t2, "formatted": formatted}})
 		case status != "ok" || parsed != t2 || nerrs != "0" || nrest != "1":
 			key := "roundtrip-model-parse-differs"
-			if frag {
+			if covered {
 				key = "roundtrip-theorem-instance-false"
 			}
 			r.Violate(Violation{Kind: "correspondence", Key: key,
